@@ -119,12 +119,13 @@ func ResolveUDPAddr(network, addr string) (*UDPAddr, error) {
 
 // Config are the per-run network knobs (drawn by the scenario from the plan stream).
 type Config struct {
-	SockBuf      int     // capacity of each direction's queue in bytes
-	MaxReadChunk int     // Read returns at most this many bytes (0 = unlimited)
-	ChunkP       float64 // probability that a Read is cut short at a random point
-	MaxGrace     int     // writes that still "succeed" after the peer closed (FIN/RST race), drawn in [0,MaxGrace]
-	EOFWithData  float64 // probability that the last data is returned together with io.EOF
-	RefuseDelay  time.Duration
+	SockBuf         int     // capacity of each direction's queue in bytes
+	MaxReadChunk    int     // Read returns at most this many bytes (0 = unlimited)
+	ChunkP          float64 // probability that a Read is cut short at a random point
+	MaxGrace        int     // writes that still "succeed" after the peer closed (FIN/RST race), drawn in [0,MaxGrace]
+	EOFWithData     float64 // probability that the last data is returned together with io.EOF
+	TimeoutWithData float64 // probability that a Read with a deadline returns data together with a timeout error (legal for io.Reader)
+	RefuseDelay     time.Duration
 }
 
 func DefaultConfig() Config {
@@ -306,7 +307,9 @@ type TCPConn struct {
 	ServerSide   bool
 }
 
-func DialTCP(network string, laddr, raddr *TCPAddr) (*TCPConn, error) { return Cur().DialTCP(laddr, raddr) }
+func DialTCP(network string, laddr, raddr *TCPAddr) (*TCPConn, error) {
+	return Cur().DialTCP(laddr, raddr)
+}
 
 func (n *Net) DialTCP(laddr, raddr *TCPAddr) (*TCPConn, error) {
 	if raddr == nil {
@@ -435,6 +438,10 @@ func (c *TCPConn) Read(p []byte) (int, error) {
 	if last && ch != nil && cfg.EOFWithData > 0 && ch.Bool(cfg.EOFWithData) {
 		c.n.count("read_data_with_eof")
 		return n, io.EOF
+	}
+	if !dl.IsZero() && ch != nil && cfg.TimeoutWithData > 0 && ch.Bool(cfg.TimeoutWithData) {
+		c.n.count("read_data_with_timeout")
+		return n, errTimeout
 	}
 	return n, nil
 }
